@@ -5,7 +5,7 @@
     (e2e matrix of not-selected conditions x entry points x roles, inbound data while not selected,
     pipelining at every cut point, gate scenarios compared for equality with the model). *)
 From Coq Require Import ZArith Bool List Lia.
-From GoSecs Require Import Hsms.SendCore Hsms.SendCoreMon Hsms.SendCoreGate Hsms.SendCoreInvSteps Hsms.SendCoreGateMon Hsms.SendCoreDeclared.
+From GoSecs Require Import Hsms.SendCore Hsms.SendCoreMon Hsms.SendCoreGate Hsms.SendCoreInvSteps Hsms.SendCoreGateMon Hsms.SendCoreDeclared Hsms.SendCoreWire.
 Import ListNotations.
 Open Scope Z_scope.
 
@@ -152,6 +152,26 @@ Theorem C07_pipeline : forall fx p pre post s s' os,
     sendq (fst (dispatch p (w_inq s1 q) n f)) = sendq s1 /\ st (fst (dispatch p (w_inq s1 q) n f)) = SEL.
 Proof. exact pipeline_dispatch_selected. Qed.
 Print Assumptions C07_pipeline.
+
+(** Every split of the peer's byte stream into reads: a length-prefixed reader fed the stream
+    enc(Select.req) ++ enc(d1) ++ ... (or Select.rsp followed by data frames) in ARBITRARY chunks — cut inside the
+    length prefix, the header, a body, or across frames — hands the dispatcher exactly those frames in
+    that order; together with C07_select_req_commits / C07_select_rsp_commits / C07_pipeline every data
+    frame is dispatched with st = Selected for every write/read grouping. (The real reader, readFrame
+    with T8, is C04's subject; the e2e check cuts the real byte string at every offset.) *)
+Theorem C07_any_split : forall chunks fs, Forall wf_frame fs -> concat chunks = stream fs ->
+  read_all chunks = (fs, []).
+Proof. exact any_split_same_frames. Qed.
+Print Assumptions C07_any_split.
+
+Definition c07_sel : frame := mkF 1 0 0 0 1 7 [].
+Definition c07_d : frame := mkF 1 133 7 0 0 51 [177; 4; 0; 0; 0; 9].
+Example C07_any_split_nonvacuous :
+  read_all [firstn 3 (stream [c07_sel; c07_d]); firstn 13 (skipn 3 (stream [c07_sel; c07_d])); skipn 16 (stream [c07_sel; c07_d])]
+  = ([c07_sel; c07_d], []) /\
+  firstn 3 (stream [c07_sel; c07_d]) ++ firstn 13 (skipn 3 (stream [c07_sel; c07_d])) ++ skipn 16 (stream [c07_sel; c07_d])
+  = stream [c07_sel; c07_d].
+Proof. split; vm_compute; reflexivity. Qed.
 
 (** Non-vacuity. Connected, not selected: a synchronous W-bit send is refused at B1 with one drop and
     nothing on the wire; an inbound data frame gets Reject(4); then Select.req ++ two data frames are
